@@ -13,6 +13,6 @@ if [ $# -eq 0 ]; then set -- $PID; fi
 LOG=/tmp/seedrun-$SID-$1.log
 VERIF_REPO=$WT ./check "$@" > $LOG 2>&1; rc=$?
 git -C /repo worktree remove --force $WT
-git -C /verif checkout -- evidence 2>/dev/null
+git -C /verif checkout -- evidence/$1.json 2>/dev/null
 echo "$SID [$*]: exit=$rc $(grep -c '^VIOLATION' $LOG) violation lines; $(tail -1 $LOG)"
 grep -m2 -A1 '^VIOLATION' $LOG | cut -c1-400
